@@ -7,17 +7,25 @@ package utils
 
 import (
 	"container/heap"
+
+	uuid "github.com/satori/go.uuid"
 )
 
 var _ heap.Interface
+var _ uuid.UUID
 
 // ---------------------------------------------------------------------------------------------
 // C10: routing function
 
+// uuidmod is the mathematical function computed by UuidMod: the obligation functional#reads-only-arguments shows that the
+// result depends on nothing but (x, mod), so every node, path and restart computes the same owner for the same id.
+//@ ufunc uuidmod(uuid.UUID, uint64) uint64
+
 //@ func utils.UuidMod
-//@ props C10
+//@ props C10 C01 C02
 //@ arith bv
 //@ pure
+//@ functional uuidmod
 //@ requires [modnonzero] mod != 0
 //@ ensures [range] ret < mod
 
@@ -25,6 +33,7 @@ var _ heap.Interface
 // C19: priority queues. container/heap is verified in place (its SSA is loaded like any other code).
 
 //@ iface container/heap.Interface in *minPriorityQueue, *maxPriorityQueue
+//@ iface utils.PriorityQueue in *priorityQueue
 
 //@ spec isMin(h heap.Interface) bool = istype(h, *minPriorityQueue)
 //@ spec isMax(h heap.Interface) bool = istype(h, *maxPriorityQueue)
@@ -218,4 +227,11 @@ var _ heap.Interface
 //@ ensures [kind] isMax(ret.(*priorityQueue).queue)
 //@ ensures [len] len(qs(ret.(*priorityQueue).queue)) == len(items)
 //@ ensures [fresh] fresh(qs(ret.(*priorityQueue).queue)) || len(items) == 0
+//@ modifies nothing
+
+// ---------------------------------------------------------------------------------------------
+// Notificator.Notify: the channel hand-over itself is C11's subject; here only "touches nothing the index or partition owns".
+//@ func (*utils.Notificator).Notify
+//@ props C02 C04 C11 C14
+//@ assume
 //@ modifies nothing
